@@ -34,14 +34,14 @@ func init() {
 	register(&c01{base{
 		id:          "C01",
 		level:       lvlExploration,
-		rule:        "each case: seeded file set (1..12 files; sizes 1 byte..>16 KiB around multiples of the slice size; random, all-zero, short-period, duplicate-slice and mixed content; names in sub-directories) -> real par2.Create (random goroutine count) -> 0..4 damage operations on a segment model (delete, overwrite, flip, insert, cut, truncate, append, swap, copy-under-other-name) -> loss of a random subset of recovery files -> real par2.Repair on the directory. The model knows which protected slices still lie wholly inside a surviving segment (witnesses): k = slices without witness; blocks = distinct exponents the reference reader finds in the remaining volume files. Success (and byte-identical files) is demanded iff k <= blocks, except when the format-forced system (lowest available exponents x missing slices) is singular by reference elimination, where an error is demanded. A nil error always demands identical files. A key is (content class, slice size, #files, #ops, k, blocks, demanded?); non-trivial = at least one damage op or lost volume. Index base names and set directories may contain '%'; Create's postcondition (index written, blocks 0..n-1 beside it under <base>.*.par2) is checked before any damage",
+		rule:        "each case: seeded file set (1..12 files; sizes 1 byte..>16 KiB around multiples of the slice size; random, all-zero, short-period, duplicate-slice and mixed content; names in sub-directories) -> real par2.Create (random goroutine count) -> 0..4 damage operations on a segment model (delete, overwrite, flip, insert, cut, truncate, append, swap, copy-under-other-name) -> loss of a random subset of recovery files -> real par2.Repair on the directory. The model knows which protected slices still lie wholly inside a surviving segment (witnesses): k = slices without witness; blocks = distinct exponents the reference reader finds in the remaining volume files. Success (and byte-identical files) is demanded iff k <= blocks, except when the format-forced system (lowest available exponents x missing slices) is singular by reference elimination, where an error is demanded. A nil error always demands identical files. A key is (content class, slice size, #files, #ops, k, blocks, demanded?); non-trivial = at least one damage op or lost volume. Index base names and set directories may contain '%'; Create's postcondition (index written, blocks 0..n-1 beside it under <base>.*.par2) is checked before any damage. A fifth of the scenarios store surviving recovery files twice under other names; half spell the index path in a non-clean form (/./, //, x/../x).",
 		assumptions: append([]string{"recovery files are deleted, never corrupted (corruption is C13)", "garbage bytes are non-zero random bytes; only lower bounds are derived from witnesses, upper bounds from a brute-force content finder"}, commonAssumptions...),
 		opts:        core.WorkerOpts{CrashIsViolation: true, WallSeconds: 2400},
 	}})
 	register(&c03{base{
 		id:          "C03",
 		level:       lvlExploration,
-		rule:        "same scenario generator as C01 with emphasis on damage that leaves every slice findable while files are wrong (insertion at/off slice boundaries, swapped files, lost trailing zeros, appended garbage) and every subset of volume files deleted; real par2.Verify is judged against the model: RepairNeeded()==false iff every file is byte-identical; usable+unusable = total; usable <= slices whose content a brute-force finder locates anywhere in the surviving protected files; usable >= slices of byte-identical files; usable recovery blocks = distinct exponents read by the reference reader from the intact volume files; RepairPossible() == (unusable <= usable blocks). A key is (content, slice size, #files, op kinds, volumes deleted). Further kinds: a recovery file with one flipped bit; an extra recovery file without main packet whose recovery packet (own set ID, valid hash) is mis-sized or has an exponent above 16 bits (refusal or exclusion from the count); recovery files that start (and sometimes end) with packets of a foreign set (every own block still counts). Index base names and set directories may contain '%'",
+		rule:        "same scenario generator as C01 with emphasis on damage that leaves every slice findable while files are wrong (insertion at/off slice boundaries, swapped files, lost trailing zeros, appended garbage) and every subset of volume files deleted; real par2.Verify is judged against the model: RepairNeeded()==false iff every file is byte-identical; usable+unusable = total; usable <= slices whose content a brute-force finder locates anywhere in the surviving protected files; usable >= slices of byte-identical files; usable recovery blocks = distinct exponents read by the reference reader from the intact volume files; RepairPossible() == (unusable <= usable blocks). A key is (content, slice size, #files, op kinds, volumes deleted). Further kinds: a recovery file with one flipped bit; an extra recovery file without main packet whose recovery packet (own set ID, valid hash) is mis-sized or has an exponent above 16 bits (refusal or exclusion from the count); recovery files that start (and sometimes end) with packets of a foreign set (every own block still counts). Index base names and set directories may contain '%'. Also: surviving recovery files stored twice (a block counts once), index path spelled in a non-clean form (library and par v).",
 		assumptions: commonAssumptions,
 		opts:        core.WorkerOpts{CrashIsViolation: true, WallSeconds: 2400},
 	}})
